@@ -312,5 +312,5 @@ def run(tier: str) -> int:
         "over workers by the classes of the first two characters (assumptions that partition all code points).")
     rep.assumptions = ["strings longer than the bound are outside the claim", "the function table is the one a fresh Tokenizer has"]
     random.Random(seed()).shuffle(items)
-    collect(rep, pmap(worker, items, budget_s=420 if tier == "quick" else 3000, chunk=4))
+    collect(rep, pmap(worker, items, budget_s=420 if tier == "quick" else 720, chunk=4))
     return rep.finish(required_reach=[f"L{L}" for L in range(1, Lmax + 1)])
